@@ -331,6 +331,27 @@ theorem C02_catchup_guard_le_counterexample :
       ∧ mergeCommitted 1 log 5 [a, b] = some ([2], 1) := by
   decide
 
+/-- **the early return of `advance_deletes` after a reverted stamper** (why the state machine of the
+refinement theorem, which uses the core `advance`, is NOT yet the bookkeeping one - open):
+`delete_all_documents` reverts the stamper to the stale `committed_opstamp` (F1/F3), below the
+opstamp `T = 10` of `meta.json`.  A merge of two new uncommitted segments is running while
+`delete 1` (opstamp 3) is pushed; `end_merge` sees `3 < T`, catches the merged segment up "to the
+last commit" and records `delete_opstamp = T`.  The reused opstamps climb back: `delete 2` gets 9,
+the next commit gets exactly `T` - and `advance_deletes(M, T)` returns early ("already up-to-date"):
+document 2 is published although its delete (9) is older than the commit (10); the core `advance`
+deletes it.  The history (`…; commit; delete_all_documents; add 1; add 2; delete 1; …; delete 2;
+commit`) satisfies `okHist`: the refinement theorem holds for the core machine and, on this
+shape, does not transfer to the code. -/
+theorem C02_stale_catchup_lost_delete_counterexample :
+    let M : Seg Nat := { id := 7, docs := mkDocs [(1, 0), (2, 1)], cursor := 0 }
+    let log1 : List (DelOp Nat) := [⟨3, fun d => d == 1⟩]
+    let log2 : List (DelOp Nat) := log1 ++ [⟨9, fun d => d == 2⟩]
+    let M1 := catchUpWith Gen.END_MERGE_CATCHUP_CMP log1 10 M
+    M1.delOp = some 10 ∧ aliveDocs M1 = [2]
+      ∧ aliveDocs (advanceDeletes log2 10 M1) = [2]
+      ∧ aliveDocs (advance log2 10 M1) = [] := by
+  decide
+
 /-! ## the delete-cursor discipline, for every segment and every merged entry -/
 
 /-- **C02_cursor_discipline_invariant.**  In every run as in `C02_commit_refines_replay_partial`:
